@@ -9,13 +9,15 @@ from vlib import Infra
 # field codes -> shell words (placeholders are substituted by fzf; {q} {} are quoted by fzf itself)
 WORDS = {"n": "{n}", "s": "{}", "q": "{q}", "pn": "\"$(echo {+n} | tr ' ' ,)\"", "pf": "\"$(tr '\\n' , < {+f})\"", "f": "\"$(cat {f})\""}
 TEMPLATES = {"PA": ["n", "s", "q", "pn", "pf", "f"], "PB": ["n", "s", "pn"], "PC": ["q", "n", "pf"], "PD": ["n", "f"]}
-ENDLESS = ("endless", "ticking", "incrlong", "pipe", "execend")
+ENDLESS = ("endless", "ticking", "incrlong", "pipe", "execend", "closed")
 HUNG_AFTER = 15.0      # a SIGKILLed process group that has not been reaped after this long is not going to be
 MARKER = "change-prompt(%d> )"     # the number shows on the screen: what the terminal has consumed so far
 
 # what a command does after its first block of lines ($L = identity line, $i = number of the next line).  Everything
 # that takes time is a CHILD of the shell fzf started (command list / loop / pipeline), except `execend`.
 FRAG = {"instant": ":", "mute": ":", "late": ":", "slow": "sleep 0.3; :",
+        # `closed`: the OUTPUT ends (stdout and stderr closed: EOF on fzf's pipe) while the PROCESS goes on for ever
+        "closed": "exec >&- 2>&-; while :; do sleep 1; done",
         "endless": "sleep 1000; echo \"$L|end\"", "pipe": "sleep 1000 | cat", "execend": "exec sleep 1000",
         "incr": "for j in 1 2 3; do sleep 0.12; echo \"$L|$i\"; i=$((i+1)); done",
         "incrlong": "for j in 1 2; do sleep 0.15; echo \"$L|$i\"; i=$((i+1)); done; sleep 1000; :",
@@ -322,14 +324,20 @@ class Plan:
          {"until": hook-event}               go on as soon as one more such hook event has been logged ("rel": "post": one more
                                              than before the preceding POST; list.reload = the terminal got another input generation)
          {"burst": body, "until": event}     keep POSTing body until one more such hook event has been logged
+         {"idle": seconds}                   POST nothing until no previewer event (but repeated displays) has been logged for
+                                             that long (>= 1 s): recorded as an `idle` event (Trace_Preview.TIdle)
+       In a POST body @Wh stands for change-preview-window(hidden), @W<k> for change-preview-window(LAYOUTS[k]), @Ws for the
+       layout in use; the driver sends them only where the specification has them (hide: window visible; show: window hidden
+       by change-preview-window; toggle-preview not while hidden that way), otherwise `ignore` is sent in their place.
        observe: take the quiescence observation before leaving;  leave: abort | accept | sigterm | none(the steps end it)"""
     def __init__(self, sid, tag, kinds, nitems, steps, observe=True, leave="abort", label="random", lead=0, talls=(1,), layout=0, wrap=False, suffix="",
-                 gens=()):
+                 gens=(), follow=False):
         self.sid, self.tag, self.kinds, self.nitems, self.steps = sid, tag, kinds, nitems, steps
         self.observe, self.leave, self.label, self.lead = observe, leave, label, lead
         self.talls, self.layout, self.wrap = list(talls), layout, wrap         # lines printed at once by item index; LAYOUTS index; wrap mode
         self.suffix = suffix                                                    # appended to every item text (lines wider than the window)
         self.gens = list(gens)                                                  # number of lines of input generation 1, 2, ... (reload)
+        self.follow = follow                                                    # --preview-window follow
 
     def to_json(self):
         return dict(self.__dict__)
@@ -346,6 +354,7 @@ def gen_texts(plan, g):
 
 _RELOAD = re.compile(r"@([RS])([sp]?)(\d+)")
 _GENFILE = re.compile(r"gen(\d+)\.txt")
+_CPW = re.compile(r"@W(h|s|\d+)")
 
 
 def reload_action(m):
@@ -363,7 +372,7 @@ def run_session(ctx, fzf, plan, geoms, record_unsettled=False):
     texts = gens[0]
     geom = geoms[plan.layout]
     args = ["--no-color", "--no-unicode", "--multi", "--no-sort", "--preview", cmds[plan.tag],
-            "--preview-window", LAYOUTS[plan.layout] + (",wrap" if plan.wrap else "")]
+            "--preview-window", LAYOUTS[plan.layout] + (",wrap" if plan.wrap else "") + (",follow" if plan.follow else "")]
     # the preview commands run in the session directory (run.sh changes into it): LOG and LOCK are relative paths
     s = tmuxdrv.Session(ctx, fzf, args, input_data="".join(t + "\n" for t in texts), width=PANE[0], height=PANE[1],
                         env={"FZF_VERIF_SID": sid, "VLOG": "pvlog", "VLOCK": "pvlock"})
@@ -374,6 +383,7 @@ def run_session(ctx, fzf, plan, geoms, record_unsettled=False):
     quiet = None
     quiet_at = None
     visible, tag, markers = True, plan.tag, 0
+    hidden_by, layout_now, idles = "", plan.layout, []
     gone = False
     try:
         s.wait_listening(timeout=120)
@@ -381,7 +391,32 @@ def run_session(ctx, fzf, plan, geoms, record_unsettled=False):
         ix = Index(s)
 
         def post(body):
-            nonlocal visible, tag, gone
+            nonlocal visible, tag, gone, hidden_by, layout_now, geom
+            if not body.startswith("change-preview:"):
+                toks = []
+                for tok in body.split("+"):
+                    m = _CPW.fullmatch(tok)
+                    if m and m.group(1) == "h":
+                        if visible:
+                            visible, hidden_by, tok = False, "cpw", "change-preview-window(hidden)"
+                        else:
+                            tok = "ignore"
+                    elif m:
+                        if not visible and hidden_by == "cpw":
+                            if m.group(1) != "s":
+                                layout_now = int(m.group(1)) % len(LAYOUTS)
+                                geom = geoms[layout_now]
+                            visible, hidden_by, tok = True, "", "change-preview-window(%s)" % LAYOUTS[layout_now]
+                        else:
+                            tok = "ignore"
+                    elif tok == "toggle-preview":
+                        if not visible and hidden_by == "cpw":
+                            tok = "ignore"
+                        else:
+                            visible = not visible
+                            hidden_by = "" if visible else "tp"
+                    toks.append(tok)
+                body = "+".join(toks)
             body = _RELOAD.sub(reload_action, body)
             final = any(a in body for a in ("abort", "accept"))
             st, _ = s.post(body, final=final, timeout=60)
@@ -393,8 +428,6 @@ def run_session(ctx, fzf, plan, geoms, record_unsettled=False):
                 for t, c in cmds.items():
                     if body == "change-preview:" + c:
                         tag = t
-            else:
-                visible ^= (len(re.findall(r"toggle-preview(?!-)", body)) % 2 == 1)
 
         pre = {}
         for st in plan.steps:
@@ -402,6 +435,15 @@ def run_session(ctx, fzf, plan, geoms, record_unsettled=False):
                 break
             if "sleep" in st:
                 time.sleep(st["sleep"])
+            elif "idle" in st:
+                quiet_evs = lambda: sum(1 for e in ix.update().pv if e["ev"] != "pv.display")
+                for _ in range(4):
+                    n0, t0 = quiet_evs(), time.monotonic()
+                    time.sleep(max(1.0, st["idle"]))
+                    ms = int((time.monotonic() - t0) * 1000)
+                    if quiet_evs() == n0:
+                        idles.append((ix.n, {"ev": "idle", "ms": ms}))
+                        break
             elif "burst" in st:
                 n0 = pre.get(st["until"], 0) if st.get("rel") == "post" else ix.count(st["until"])
                 k, t1 = 0, time.time()
@@ -508,7 +550,7 @@ def run_session(ctx, fzf, plan, geoms, record_unsettled=False):
         exit_ev = {"ev": "exit", "how": plan.leave, "status": status, "survivors": pgids(prev), "overlaps": overlaps}
         kill_all(prev)
         tr = list(s.trace())
-        return project(plan, gens, cmds, tr, quiet, quiet_at, exit_ev, geom)
+        return project(plan, gens, cmds, tr, quiet, quiet_at, exit_ev, geoms, idles)
     finally:
         try:
             s.close()
@@ -522,8 +564,10 @@ SCROLLS = ("preview-up", "preview-down", "preview-page-up", "preview-page-down",
            "preview-top", "preview-bottom")
 
 
-def project(plan, gens, cmds, tr, quiet, quiet_at, exit_ev, geom):
-    """gens[k]: the lines of input generation k (what the reload command for it prints)."""
+def project(plan, gens, cmds, tr, quiet, quiet_at, exit_ev, geoms, idles=()):
+    """gens[k]: the lines of input generation k (what the reload command for it prints); idles: (trace position, event)."""
+    geom = geoms[plan.layout]
+    idles = list(idles)
     tagof = {c: t for t, c in cmds.items()}
     major, content, content_of = 0, 0, {0: 0}    # t.revision.major; which generation's lines it holds; by major revision
 
@@ -534,10 +578,13 @@ def project(plan, gens, cmds, tr, quiet, quiet_at, exit_ev, geom):
                 plan.sid, quiet["curtext"], quiet["cur"], content, major, gens[content][quiet["cur"]] if quiet["cur"] < len(gens[content]) else None))
         evs.append(quiet)
     evs = [{"ev": "begin", "sid": plan.sid, "texts": gens[0], "tmpls": TEMPLATES, "kinds": plan.kinds, "talls": plan.talls,
-            "H": geom[3], "W": geom[2], "wrap": plan.wrap, "layout": LAYOUTS[plan.layout], "tag": plan.tag, "label": plan.label}]
+            "H": geom[3], "W": geom[2], "wrap": plan.wrap, "follow": plan.follow, "layout": LAYOUTS[plan.layout], "tag": plan.tag, "label": plan.label}]
     last_disp = None                             # (only an immediately repeated display is dropped)
     during = ""                                  # the action being executed (term.act ... term.loop happen under t.mutex)
     for i, e in enumerate(tr):
+        while idles and idles[0][0] <= i and (quiet is None or idles[0][0] <= quiet_at):
+            evs.append(idles.pop(0)[1])
+            last_disp = None
         if quiet is not None and i == quiet_at:
             add_quiet()
             last_disp = None
@@ -563,6 +610,14 @@ def project(plan, gens, cmds, tr, quiet, quiet_at, exit_ev, geom):
                 evs.append({"ev": "tp", "seq": e["seq"]})
             elif during == "toggle-preview-wrap":
                 evs.append({"ev": "tw", "seq": e["seq"]})
+            elif during == "change-preview-window":
+                if e.get("arg") == "hidden":
+                    evs.append({"ev": "cpw", "hidden": True, "H": 0, "W": 0, "seq": e["seq"]})
+                elif e.get("arg") in LAYOUTS:
+                    g = geoms[LAYOUTS.index(e["arg"])]
+                    evs.append({"ev": "cpw", "hidden": False, "H": g[3], "W": g[2], "layout": e["arg"], "seq": e["seq"]})
+                else:
+                    raise Infra("change-preview-window with an argument the driver never sends: %r" % e.get("arg"))
         elif k == "term.loop":
             during = ""
         elif k == "pv.enqueue":
@@ -589,6 +644,8 @@ def project(plan, gens, cmds, tr, quiet, quiet_at, exit_ev, geom):
             continue
         if len(evs) > n0:
             last_disp = None
+    while idles and (quiet is None or idles[0][0] <= quiet_at):
+        evs.append(idles.pop(0)[1])
     if quiet is not None and quiet_at >= len(tr):
         add_quiet()
     evs.append(exit_ev)
